@@ -16,6 +16,7 @@ import (
 	"math/rand"
 	"net"
 	"net/http"
+	neturl "net/url"
 	"os"
 	"os/exec"
 	"path/filepath"
@@ -379,11 +380,13 @@ var (
 	backendIDs = []string{"b0", "b1", "b2", "b3"}
 	agentMails = []string{"agent0@example.com", "agent1@example.com", "agent2@example.com"}
 	// near misses of registered identities: case, prefix, suffix, sub-address
-	agentNear  = []string{"Agent0@example.com", "agent0@example.com.evil.example", "xagent0@example.com", "agent0", "agent1@EXAMPLE.com", "agent0+x@example.com", "allUsers"}
-	userMails  = []string{"u0@example.com", "u1@example.com", "u2@example.com"}
-	userNear   = []string{"U0@example.com", "u0@example.com.evil.example", "xu0@example.com", "u1@EXAMPLE.COM", "allusers", "AllUsers"}
-	prefixPool = []string{"/", "/a/", "/a/b/", "/b/", "/a/b/c/", "/x", "/a"}
-	pathPool   = []string{"/", "/a/x", "/a/b/x", "/a/b/c/d", "/b/", "/bq", "/x", "/y/z", "/a", "/a/b/"}
+	agentNear = []string{"Agent0@example.com", "agent0@example.com.evil.example", "xagent0@example.com", "agent0", "agent1@EXAMPLE.com", "agent0+x@example.com", "allUsers"}
+	userMails = []string{"u0@example.com", "u1@example.com", "u2@example.com"}
+	userNear  = []string{"U0@example.com", "u0@example.com.evil.example", "xu0@example.com", "u1@EXAMPLE.COM", "allusers", "AllUsers"}
+	// prefixes are matched against the DECODED request path; two of them need escaping on the wire
+	prefixPool = []string{"/", "/a/", "/a/b/", "/b/", "/a/b/c/", "/x", "/a", "/my notebooks/", "/~u/"}
+	// request targets as sent (escaped form)
+	pathPool = []string{"/", "/a/x", "/a/b/x", "/a/b/c/d", "/b/", "/bq", "/x", "/y/z", "/a", "/a/b/", "/my%20notebooks/n1", "/my%20notebooks", "/%7Eu/home", "/~u/home", "/a%2Fb/x", "/a/b%2Fc/d"}
 )
 
 func (h *hist) pick(l []string) string { return l[h.rng.Intn(len(l))] }
@@ -942,7 +945,7 @@ func (h *hist) run(nops int, faultP, bigP float64) {
 					user = h.pick(userNear)
 				}
 				if ps := b.Str["PathPrefixes"]; len(ps) > 0 {
-					url = h.pick(ps) + h.pick([]string{"", "x", "x/y", "b/", "b/c/z"})
+					url = (&neturl.URL{Path: h.pick(ps) + h.pick([]string{"", "x", "x/y", "b/", "b/c/z"})}).EscapedPath()
 				}
 				if h.rng.Intn(3) != 0 {
 					h.opSeen(b.Name, h.pick([]string{"live", "live", "live", "edge-live"}))
@@ -1216,13 +1219,13 @@ func (h *hist) scriptRouting() {
 	h.opAdd("b0", "admin", ag0, "u0@example.com", []string{"/"}, []string{})
 	h.opAdd("b1", "admin", ag0, "u0@example.com", []string{"/a/", "/a/b/"}, []string{})
 	h.opAdd("b2", "admin", ag0, "allUsers", []string{"/s/", "/a/"}, []string{})
-	h.opAdd("b3", "admin", ag0, "u1@example.com", []string{"/a/b/c/"}, []string{})
+	h.opAdd("b3", "admin", ag0, "u1@example.com", []string{"/a/b/c/", "/my notebooks/", "/~u/"}, []string{})
 	for _, ages := range [][4]string{{"live", "live", "live", "live"}, {"live", "edge-live", "live", "live"}, {"live", "edge-stale", "live", "live"}, {"live", "stale", "live", "old"}, {"stale", "live", "edge-live", "live"}} {
 		for i, a := range ages {
 			h.opSeen(fmt.Sprintf("b%d", i), a)
 		}
 		for _, u := range []string{"u0@example.com", "u1@example.com", "u2@example.com", "allUsers", "U0@example.com", "AllUsers"} {
-			for _, p := range []string{"/x", "/a/x", "/a/b/x", "/a/b/c/x", "/s/x", "/a", "/sx"} {
+			for _, p := range []string{"/x", "/a/x", "/a/b/x", "/a/b/c/x", "/s/x", "/a", "/sx", "/my%20notebooks/n", "/%7Eu/h", "/~u/h", "/a%2Fb/x"} {
 				h.opUStart(u, "POST", p, 500, []string{}, false)
 			}
 		}
@@ -1285,6 +1288,75 @@ func (h *hist) ages(id string, seconds int64) {
 
 var scripts = []func(*hist){(*hist).scriptBothWritesFail, (*hist).scriptCronBetween, (*hist).scriptSizes, (*hist).scriptAccessMatrix, (*hist).scriptRouting, (*hist).scriptGetCache, (*hist).scriptRefresh}
 
+// concurrentRelay: many requests in flight, all answered by agent posts that overlap in time.  Not replayed
+// on the (sequential) model: every client must get exactly the response posted under its own request ID.
+func (e *env) concurrentRelay(rounds, n int) {
+	for round := 0; round < rounds; round++ {
+		h := &hist{e: e, rng: rand.New(rand.NewSource(int64(round))), idx: 1000 + round}
+		e.api.Reset()
+		h.posts = map[int][]byte{}
+		b, _ := json.Marshal(map[string]interface{}{"id": "b0", "backendUser": ag0, "endUser": "allUsers", "pathPrefixes": []string{"/"}})
+		e.call("api", "POST", "/api/backends", adminIdent("admin"), nil, b, quick, false)
+		e.api.SetTimeProperty("backendTracker", "b0", "LastSeen", time.Now().UnixNano()/1000)
+		type cl struct {
+			n    int64
+			rid  string
+			done chan reply
+			tag  int
+		}
+		cls := make([]*cl, n)
+		for i := range cls {
+			c := &cl{n: atomic.AddInt64(&e.seq, 1), done: make(chan reply, 1), tag: i + 1}
+			c.rid = ridOf(c.n)
+			cls[i] = c
+			go func(c *cl, i int) {
+				c.done <- e.callN(c.n, "default", "POST", fmt.Sprintf("/conc/%d", i), ident{User: userMails[i%len(userMails)]}, nil, []byte("req"), 45*time.Second, false)
+			}(c, i)
+		}
+		// wait until every request is stored
+		for w := 0; w < 1000; w++ {
+			if len(e.storedRequests()) >= n {
+				break
+			}
+			time.Sleep(5 * time.Millisecond)
+		}
+		// all posts at once; sizes differ so that a recycled buffer would show
+		var wg sync.WaitGroup
+		statuses := make([]int, n)
+		for i, c := range cls {
+			resp := mkResponse(c.tag, 600+37*(i%17), 200, true)
+			h.posts[c.tag] = resp
+			wg.Add(1)
+			go func(i int, c *cl, resp []byte) {
+				defer wg.Done()
+				r := e.call("agent", "POST", "/agent/response", ident{OAuth: ag0}, agentHdr("b0", c.rid), resp, 10*time.Second, false)
+				statuses[i] = r.Status
+			}(i, c, resp)
+		}
+		wg.Wait()
+		wrong, missing, badBody := 0, 0, 0
+		var examples []string
+		for i, c := range cls {
+			select {
+			case r := <-c.done:
+				var tag int
+				fmt.Sscanf(r.Header.Get("X-Resp-Tag"), "t%d", &tag)
+				if r.Status != 200 || tag != c.tag {
+					wrong++
+					if len(examples) < 5 {
+						examples = append(examples, fmt.Sprintf("client %d (request %s) got status %d tag %q, its agent post was t%d (answered %d)", i, c.rid, r.Status, r.Header.Get("X-Resp-Tag"), c.tag, statuses[i]))
+					}
+				} else if !h.bodyMatches(r) || !headersMatch(r) {
+					badBody++
+				}
+			case <-time.After(10 * time.Second):
+				missing++
+			}
+		}
+		e.emit(map[string]interface{}{"kind": "conc", "round": round, "clients": n, "wrong_response": wrong, "no_response": missing, "bytes_differ": badBody, "examples": examples})
+	}
+}
+
 // ---------------------------------------------------------------- fixed scenarios
 
 // startTimeout: a stored request nobody answers is answered 504 once, after responseWaitTimeout.
@@ -1318,6 +1390,7 @@ func main() {
 	faultP := flag.Float64("faultp", 0.2, "probability that an operation runs with failing API calls")
 	bigP := flag.Float64("bigp", 0.12, "probability of a payload at/above the 1,000,000-byte limits")
 	withTimeout := flag.Bool("timeout504", true, "")
+	concRounds := flag.Int("conc", 3, "rounds of the concurrent relay scenario")
 	flag.Parse()
 	f, err := os.Create(*outPath)
 	if err != nil {
@@ -1349,6 +1422,7 @@ func main() {
 		}
 		h.run(*nops, fp, *bigP)
 	}
+	e.concurrentRelay(*concRounds, 32)
 	if *withTimeout {
 		select {
 		case r := <-tres:
